@@ -1501,6 +1501,20 @@ def ident_item():
         b = [ast.unparse(x) for x in _body_without_docstring(_find_method(rel, "TaskIdentifier", prop))]
         if b != ["return " + field]:
             raise Unsupported("property %s is not `return %s`" % (prop, field))
+    # the two parsers: the WHOLE string is matched against the pattern (which owns the optional // prefix), then the prefix test
+    fs = [ast.unparse(x) for x in _body_without_docstring(_find_method(rel, "TaskIdentifier", "from_str"))]
+    want_fs = ["match = _TASK_IDENTIFIER_REGEX.match(candidate)", "if match is None:\n    raise InvalidTaskIdentifier(task_identifier=candidate)",
+               "if require_prefix and (not candidate.startswith('//')):\n    raise InvalidTaskIdentifier(task_identifier=candidate)",
+               "path_str = match.group('path')",
+               "if path_str is None:\n    path = pathlib.Path()\nelse:\n    path = pathlib.Path(*filter(lambda s: len(s) > 0, path_str.split('/')))",
+               "return cls(path=path, name=match.group('name'))"]
+    if fs != want_fs:
+        raise Unsupported("TaskIdentifier.from_str reads %r" % [x.splitlines()[0] for x in fs])
+    fr = [ast.unparse(x) for x in _body_without_docstring(_find_method(rel, "TaskIdentifier", "from_relative_str"))]
+    want_fr = ["match = _RELATIVE_TASK_IDENTIFIER_REGEX.match(candidate)", "if match is None:\n    raise InvalidTaskIdentifier(task_identifier=candidate)",
+               "return cls(path=rel_cond_file_dir, name=match.group('name'))"]
+    if fr != want_fr:
+        raise Unsupported("TaskIdentifier.from_relative_str reads %r" % [x.splitlines()[0] for x in fr])
     init = [ast.unparse(x) for x in _body_without_docstring(_find_method(rel, "TaskIdentifier", "__init__"))]
     if sorted(init) != ["self._name = name", "self._path = path"]:
         raise Unsupported("__init__ stores something else: %r" % init)
@@ -1508,7 +1522,8 @@ def ident_item():
             "Definition gen_ident_path_sep : list N := %s.\n"
             "Definition gen_ident_repr (path_joined name : list N) : list N := %s.\n"
             "Definition gen_ident_eq (path_eq name_eq : bool) : bool := %s.\n"
-            "Definition gen_ident_hash_is_of_repr : bool := true.\n" % (coq_str(sep), " ++ ".join(parts), eq_expr))
+            "Definition gen_ident_hash_is_of_repr : bool := true.\n"
+            "Definition gen_ident_parsers_are_the_transcribed_ones : bool := true.\n" % (coq_str(sep), " ++ ".join(parts), eq_expr))
 
 
 def where_item():
